@@ -43,6 +43,7 @@ type OptSet struct {
 	Debug        bool
 	Stats        bool
 	Init         int // InitState values (grammars with a state store only)
+	Reader       bool // through ParseReader; the result must also survive a later ParseReader call
 }
 
 // MCConfig configures the generic model check.
@@ -154,7 +155,7 @@ func (c *Ctx) mcChunk(cfg *MCConfig, gs []*gast.Grammar, base int, rng *rand.Ran
 					}
 					id := fmt.Sprintf("%s/%d/%d/%d", u.Pkg, ii, oi, ei)
 					mc := &mon.Case{ID: id, Pkg: u.Pkg, Input: in, File: os.File, Entry: en, AllowInvalid: os.AllowInvalid,
-						NoRecover: os.NoRecover, MaxExpr: os.MaxExpr, MaxEvents: 4000, Memo: os.Memo, Debug: os.Debug, Stats: os.Stats, Init: os.Init}
+						NoRecover: os.NoRecover, MaxExpr: os.MaxExpr, MaxEvents: 4000, Memo: os.Memo, Debug: os.Debug, Stats: os.Stats, Init: os.Init, Reader: os.Reader}
 					if os.Debug && cfg.DebugOptEvery > 1 && ii%cfg.DebugOptEvery != 0 {
 						continue // Debug(true) runs are I/O heavy: option sets with Debug take every n-th input
 					}
@@ -549,6 +550,9 @@ func compareModel(mask int, cs *mcCase, r *mon.Result, m *ref.Result) []diff {
 	}
 	if mask&CmpGLog != 0 && r.GLog != m.GLog {
 		ds = append(ds, diff{"globalstore", m.GLog, r.GLog})
+	}
+	if r.Unstable != "" {
+		ds = append(ds, diff{"result-changed-later", "the returned value stays what it was", r.Unstable})
 	}
 	if mask&CmpInput != 0 && r.InputChanged {
 		ds = append(ds, diff{"input", "input buffer unchanged", "Parse wrote to the caller's buffer"})
